@@ -655,6 +655,13 @@ async def load_scripts(
             parts = global_ctx_name.split(".")
             root = f"{parts[0]}.{parts[1]}"
             will_reload.add(root)
+    #
+    # a module file that was deleted (or "commented") has changed too, so whatever imports it is reloaded
+    #
+    for global_ctx_name in ctx_delete:
+        if global_ctx_name.startswith("modules.") and global_ctx_name not in ctx2files:
+            parts = global_ctx_name.split(".")
+            will_reload.add(f"{parts[0]}.{parts[1]}")
 
     if len(will_reload) > 0:
 
